@@ -10,7 +10,7 @@ SUPPORT = ["Dec/Ty.v", "Dec/Val.v", "Dec/Parse.v", "Dec/Text.v", "Dec/Num.v", "D
            "Dec/Range.v", "Dec/Trailing.v", "Dec/StdBind.v", "Dec/SonicBind.v", "Dec/Compile.v", "Dec/FieldMapProofs.v",
            "Dec/FieldLookup.v", "Dec/DecProofs.v", "Dec/Witness.v", "Dec/ParseMono.v", "Dec/OptProofs.v", "Dec/DecProofs2.v",
            "Dec/Witness2.v", "Dec/Exec.v", "Dec/ExecProofs.v", "Dec/ExecWitness.v", "Dec/Code.v", "Dec/ParseFuel.v", "Dec/Path.v",
-           "Dec/SimBase.v", "Dec/Sim.v", "Dec/SimTop.v"]
+           "Dec/SimBase.v", "Dec/Sim.v", "Dec/SimTop.v", "Dec/CodeStruct.v", "Dec/SimStruct.v"]
 
 CLAIM = {
     "gens": [],
@@ -24,7 +24,7 @@ CLAIM = {
              "on error-or-not and on the value for the proved fragment (maps and `,string` fields under the no-collision discipline), with each known divergence as an explicit guard plus a refutation "
              "witness. Both models are tied to the real sonic and the real encoding/json on generated (type, initial value, input, config) "
              "cases; the compiler's IL listing is tied to the model's compile for every generated type, and an interpreter of that IL (exec) is tied to the real decoder on the same cases; for bool, integers, floats, string, "
-             "interface{} and pointers / slices / fixed arrays of those (nested arbitrarily, well-shaped destinations) a simulation theorem links the compiled program, run by that interpreter, "
+             "interface{} and pointers / slices / fixed arrays of those (nested arbitrarily, well-shaped destinations), and for top-level structs with unquoted fields of those types, a simulation theorem links the compiled program, run by that interpreter, "
              "to the tree-level binder on every input (C01_compile_code, C01_il_sim); FieldMap and ResolveStruct are "
              "driven directly. The property's own oracle (sonic vs encoding/json, all generated and catalogue types) runs on every case."),
     "note": ("Trusted: Coq kernel, extraction, the OCaml driver, the Go harness, reflect-built types. The models are hand transcriptions of "
